@@ -302,7 +302,17 @@ func (g *nestGen) cond() model.Expr {
 	if v, ok := l.(model.Var); ok && v.Name == "unk" {
 		e = l // an unknown identifier is tolerated as the condition itself, not as a helper argument
 	}
-	switch rapid.IntRange(0, 7).Draw(g.t, "wrap") {
+	switch rapid.IntRange(0, 9).Draw(g.t, "wrap") {
+	case 8: // a condition that is an ARITHMETIC expression: its int value (also 0) is truthy
+		g.ctr++
+		e = model.Bin{Op: rapid.SampledFrom([]string{"+", "-", "*"}).Draw(g.t, "aop"),
+			L: model.Call{Fn: "c", Args: []model.Expr{model.Lit{V: g.ctr - 1}, model.Lit{V: rapid.IntRange(0, 2).Draw(g.t, "ai")}}},
+			R: model.Call{Fn: "c", Args: []model.Expr{model.Lit{V: g.ctr}, model.Lit{V: rapid.IntRange(0, 2).Draw(g.t, "aj")}}}}
+	case 9: // a condition that is a CONCATENATION: truthy iff the result is non-empty
+		g.ctr++
+		e = model.Bin{Op: "+",
+			L: model.Call{Fn: "c", Args: []model.Expr{model.Lit{V: g.ctr - 1}, model.Lit{V: rapid.SampledFrom([]string{"", "x"}).Draw(g.t, "si")}}},
+			R: model.Call{Fn: "c", Args: []model.Expr{model.Lit{V: g.ctr}, model.Lit{V: rapid.SampledFrom([]string{"", "y"}).Draw(g.t, "sj")}}}}
 	case 0:
 		e = model.Not{X: e}
 	case 1:
@@ -378,7 +388,7 @@ func checkNestSrc(r *vk.Run, prog []model.Node, src string, c NestCase) *vk.Fail
 	return nil
 }
 
-const rule = "(A, exhaustive) 53 value kinds (nil, bools, strings incl. \"false\"/\"0\", trusted HTML, typed nil pointers, non-nil pointers to zero values, unknown identifier, nil context value, every numeric width at 0, empty and non-empty slices/arrays/maps/structs, func, iterator, time, helper results) x 23 test positions (if, else-if, second else-if, !, !!, &&/|| on either side, emitted ! && ||, inside for / function / block helper, silent if, && in a silent tag, and five sequences in which a name is first tested while unknown, then bound by a loop variable / parameter / helper-context data and tested again), via a variable and via the literal spelling where one exists: the truth value must be the same everywhere and equal the table in the property. (B, exhaustive) every chain of 1..4 branches x every assignment of 9 condition values x with/without else x 5 placements, each condition wrapped in a recording helper: output = block of the first truthy branch, conditions evaluated = exactly the prefix up to it. (C, random) nested if/else-if/else chains with !, && and || conditions inside loops, compared with the reference interpreter incl. the evaluation trace. Non-trivial: every matrix cell and chain is (distinct by cell / chain / template)."
+const rule = "(A, exhaustive) 53 value kinds (nil, bools, strings incl. \"false\"/\"0\", trusted HTML, typed nil pointers, non-nil pointers to zero values, unknown identifier, nil context value, every numeric width at 0, empty and non-empty slices/arrays/maps/structs, func, iterator, time, helper results) x 23 test positions (if, else-if, second else-if, !, !!, &&/|| on either side, emitted ! && ||, inside for / function / block helper, silent if, && in a silent tag, and five sequences in which a name is first tested while unknown, then bound by a loop variable / parameter / helper-context data and tested again), via a variable and via the literal spelling where one exists: the truth value must be the same everywhere and equal the table in the property. plus 13 conditions that are arithmetic / concatenation expressions (value tested, e.g. 0 + 0 is truthy, \"\" + \"\" falsy) x 6 positions. (B, exhaustive) every chain of 1..4 branches x every assignment of 9 condition values x with/without else x 5 placements, each condition wrapped in a recording helper: output = block of the first truthy branch, conditions evaluated = exactly the prefix up to it. (C, random) nested if/else-if/else chains with !, && and || conditions inside loops, compared with the reference interpreter incl. the evaluation trace. Non-trivial: every matrix cell and chain is (distinct by cell / chain / template)."
 
 func setup(t *testing.T) *vk.Run {
 	r := vk.Start(t, "C07", rule,
@@ -408,6 +418,19 @@ func setup(t *testing.T) *vk.Run {
 			return &vk.Fail{Kind: "decode", Msg: "index out of range"}
 		}
 		return checkChain(r, c)
+	})
+	r.Replayer("arith", func(raw json.RawMessage) *vk.Fail {
+		var c map[string]string
+		if f := vk.Decode(raw, &c); f != nil {
+			return f
+		}
+		res := vk.Safe(func() (string, error) {
+			return plush.Render(c["src"], plush.NewContextWith(map[string]interface{}{"n0": 0, "n1": 1, "f0": 0.0, "e": "", "one": []int{1}}))
+		})
+		if res.Panicked() || res.Err != nil || res.Out != c["want"] {
+			return &vk.Fail{Kind: "arith", Case: c, Msg: fmt.Sprintf("%s gave %s, want %q", c["src"], res, c["want"])}
+		}
+		return nil
 	})
 	r.Replayer("nest", func(raw json.RawMessage) *vk.Fail {
 		var c NestCase
@@ -441,7 +464,39 @@ func TestProp(t *testing.T) {
 			}
 		}
 	}
-	r.Subspace("truth table: value kinds x test positions (variable and literal spellings)", n, true)
+	// conditions that are arithmetic / concatenation expressions (their value is tested, not a bool)
+	arith := []struct {
+		cond   string
+		truthy bool
+	}{
+		{"n0 + n0", true}, {"n1 - n1", true}, {"n0 * n1", true}, {"n1 + n1", true}, {"n1 / n1", true}, {"f0 + f0", true}, {"f0 * f0", true},
+		{`e + e`, false}, {`e + "x"`, true}, {`"x" + e`, true}, {`e + n0`, true}, {"(n0 + n0)", true}, {"n0 + n0 * n0", true},
+	}
+	for _, a := range arith {
+		for _, tm := range []string{
+			`<%%= if (%s) { %%>T<%% } else { %%>F<%% } %%>`,
+			`<%%= if (false) { %%>X<%% } else if (%s) { %%>T<%% } else { %%>F<%% } %%>`,
+			`<%%= if (nil) { %%>X<%% } else if (false) { %%>Y<%% } else if (%s) { %%>T<%% } else { %%>F<%% } %%>`,
+			`<%%= for (i) in one { %%><%%= if (%s) { %%>T<%% } else { %%>F<%% } %%><%% } %%>`,
+			`<%%= if (!(%s)) { %%>F<%% } else { %%>T<%% } %%>`,
+			`<%%= if ((%s) && true) { %%>T<%% } else { %%>F<%% } %%>`,
+		} {
+			src := fmt.Sprintf(tm, a.cond)
+			want := "F"
+			if a.truthy {
+				want = "T"
+			}
+			res := vk.Safe(func() (string, error) {
+				return plush.Render(src, plush.NewContextWith(map[string]interface{}{"n0": 0, "n1": 1, "f0": 0.0, "e": "", "one": []int{1}}))
+			})
+			r.Count("arith|"+src, "truth/arithmetic condition")
+			n++
+			if res.Panicked() || res.Err != nil || res.Out != want {
+				r.Violation(&vk.Fail{Kind: "arith", Case: map[string]string{"src": src, "want": want}, Msg: fmt.Sprintf("%s gave %s, want %q (the value of an arithmetic/concatenation condition is %v wherever it is tested)", src, res, want, a.truthy)})
+			}
+		}
+	}
+	r.Subspace("truth table: value kinds x test positions (variable and literal spellings) + 13 arithmetic/concatenation conditions x 6 positions", n, true)
 
 	maxB := 4
 	nv := int64(len(condVals))
